@@ -63,6 +63,7 @@ class C03(Prop):
         if not quick:
             payloads += ["".join(p) for p in itertools.product(pc.SYNTAX_CHARS, repeat=2)]
         n = 0
+        self.escape_witness = None
         pyref = {}
         for kind in kinds:
             for ctx in pc.CONTEXTS:
@@ -80,6 +81,11 @@ class C03(Prop):
                         return dict(kind=kind, context=ctx, program_a=ctx.format(base), program_b=src, shape_a=repr(ref)[:300], shape_b=repr(got)[:300])
                     if "error" not in repr(ref)[:40]:
                         pa, pb = pyref.setdefault((kind, ctx), pc.py_shape(ctx.format(base))), pc.py_shape(src)
+                        if pa != pb and "unicodeescape" in pb and "does not parse" in pb:
+                            # the recorded C02 finding (malformed Python escape in a string): note one witness, keep searching
+                            i = next((j for j, (x, y) in enumerate(zip(pa, pb)) if x != y), min(len(pa), len(pb)))
+                            self.escape_witness = self.escape_witness or dict(kind=kind, context=ctx, program_a=ctx.format(base), program_b=src, emitted="the Python emitted for the two programs differs beyond the pushed constant", python_a=pa[max(0, i - 80):i + 120], python_b=pb[max(0, i - 80):i + 120])
+                            continue
                         if pa != pb:
                             self.last_n = n
                             i = next((j for j, (x, y) in enumerate(zip(pa, pb)) if x != y), min(len(pa), len(pb)))
@@ -89,7 +95,8 @@ class C03(Prop):
 
     def bounded(self, W, tier, seed):
         w = self.search_payload(quick=(tier != "thorough"))
-        return [dict(name="C03/bounded-payload-substitution", what="literal payloads over the syntax-significant characters substituted in fixed contexts; parse shapes compared on the real lexer+parser, and the emitted Python compared with the pushed constants masked", bound=f"payload length <= {1 if tier != 'thorough' else 2}, {len(pc.CONTEXTS)} contexts, 6 literal kinds", evaluations=self.last_n, label="bounded", failures=[w] if w else [])]
+        fails = [x for x in (getattr(self, "escape_witness", None), w) if x]
+        return [dict(name="C03/bounded-payload-substitution", what="literal payloads over the syntax-significant characters substituted in fixed contexts; parse shapes compared on the real lexer+parser, and the emitted Python compared with the pushed constants masked", bound=f"payload length <= {1 if tier != 'thorough' else 2}, {len(pc.CONTEXTS)} contexts, 6 literal kinds", evaluations=self.last_n, label="bounded", failures=fails)]
 
     def run_replay(self, path):
         import json
